@@ -6,6 +6,7 @@ package main
 // the payment account, ...). Every random choice comes from the one PRNG.
 
 import (
+	ethcommon "github.com/ethereum/go-ethereum/common"
 	"fmt"
 	"math/rand"
 	"sort"
@@ -142,9 +143,13 @@ func (w *didWorld) bindMore(sid *sidIdent, mut string) {
 	}
 	var accId, sig, message, who string
 	message = "bind " + sid.did
-	if w.rng.Intn(3) == 0 && len(w.eths) > 0 {
+	if (w.rng.Intn(3) == 0 || mut == "eth-case") && len(w.eths) > 0 {
 		ek := w.eths[w.rng.Intn(len(w.eths))]
 		accId = "eip155:1:" + ek.Addr
+		if mut == "eth-case" {
+			// the same Ethereum account spelled with its EIP-55 checksum capitals: not the canonical account id
+			accId = "eip155:1:" + ethcommon.HexToAddress(ek.Addr).Hex()
+		}
 		sig = EthProofSig(ek, message)
 		if mut == "wrong-signer" {
 			sig = EthProofSig(w.eths[(w.rng.Intn(len(w.eths)-1)+1+indexOfEth(w.eths, ek))%len(w.eths)], message)
@@ -347,7 +352,7 @@ func (w *didWorld) payAddr(mut string) {
 }
 
 var didBindMuts = []string{"wrong-signer", "wrong-signdata", "bad-root", "did-mismatch", "bad-accid", "other-chain", "garbage-sig", "unrelated-message", "keys-changed", "stale"}
-var didMoreMuts = []string{"wrong-signer", "garbage-sig", "stale", "dup-accdid", "unbound-creator"}
+var didMoreMuts = []string{"wrong-signer", "garbage-sig", "stale", "dup-accdid", "unbound-creator", "eth-case", "eth-case"}
 var didRotMuts = []string{"unbound-creator", "stale", "drop-payment", "none-removed", "unhandled", "foreign-update", "bad-doc", "old-doc", "dup-seed"}
 var didPayMuts = []string{"unbound-creator", "other-chain", "second-kid", "bad-did", "did-url", "did-url"}
 
